@@ -1,5 +1,6 @@
 use crate::core::defs::{PrintForLog, SaitoHash, Timestamp};
 use std::fmt::{Debug, Formatter};
+use std::io::{Error, ErrorKind};
 
 pub struct GhostChainSync {
     pub start: SaitoHash,
@@ -46,8 +47,23 @@ impl GhostChainSync {
         .concat()
     }
     pub fn deserialize(buffer: Vec<u8>) -> GhostChainSync {
+        Self::try_deserialize(buffer).expect("ghost chain sync buffer is malformed")
+    }
+
+    /// decodes a buffer received from a peer, which cannot be trusted to be well formed
+    pub fn try_deserialize(buffer: Vec<u8>) -> Result<GhostChainSync, Error> {
+        // [start - 32 bytes][count - 4 bytes] followed by 82 bytes for each entry
+        if buffer.len() < 36 {
+            return Err(Error::from(ErrorKind::InvalidData));
+        }
         let start: SaitoHash = buffer[0..32].to_vec().try_into().unwrap();
         let count: usize = u32::from_be_bytes(buffer[32..36].try_into().unwrap()) as usize;
+        if count
+            .checked_mul(82)
+            .map_or(true, |size| buffer.len() - 36 < size)
+        {
+            return Err(Error::from(ErrorKind::InvalidData));
+        }
         let mut prehashes: Vec<SaitoHash> = vec![];
         let mut previous_block_hashes = vec![];
         let mut block_ids = vec![];
@@ -85,7 +101,7 @@ impl GhostChainSync {
             gts.push(buf[i] != 0);
         }
 
-        GhostChainSync {
+        Ok(GhostChainSync {
             start,
             prehashes,
             previous_block_hashes,
@@ -93,7 +109,7 @@ impl GhostChainSync {
             block_ts,
             txs,
             gts,
-        }
+        })
     }
 }
 
